@@ -7,6 +7,7 @@
 package hsmsss
 
 import (
+	"context"
 	"time"
 
 	"github.com/arloliu/go-secs/v2/hsms"
@@ -375,6 +376,7 @@ func zzRecv[T any](name string) T { panic("spec only") }
 //@ func (*transport).readFrame
 //@ nosafety nil-deref nil-iface
 //@ noframe
+//@ modifies nothing
 //@ requires t != nil
 //@ emits hsmsss.readN, fn:allocFrame, net.(Conn).Read, net.(Conn).SetReadDeadline, fn:now
 //@ ensures [twice]  zzCalls("hsmsss.readN") <= 2
@@ -383,8 +385,32 @@ func zzRecv[T any](name string) T { panic("spec only") }
 //@ ensures [cap]    zzCalls("fn:allocFrame") <= 1 && (zzCalls("fn:allocFrame") == 1 ==>
 //@                  zzArg[int]("fn:allocFrame", 0) >= 10 && zzArg[int]("fn:allocFrame", 0) <= secs2.MaxByteSize)
 //@ ensures [nil]    result1 != nil ==> result0 == nil
+//@ trusts  [alloc]  result1 == nil ==> len(result0) >= 10
+
+type zzCtx = context.Context
 
 var (
 	_ = time.Time{}
 	_ = secs2.MaxByteSize
 )
+
+// ---- C05: a receive goroutine that outlived its generation never injects a disconnect into a later one.
+// The only TCPDown recvLoop itself issues after a read error is guarded by the Err() of the generation context it
+// captured at entry (not the transport's current one, not the runtime's).
+
+//@ func (*transport).armT7
+//@ operation
+
+//@ func (*ConnectionMetrics).incReadErrCount
+//@ operation
+
+//@ func (*transport).recvLoop
+//@ nosafety nil-deref nil-iface
+//@ noframe
+//@ emits hsmsss.(*transport).sendReject, hsmsss.(*transport).sendRejectNotSelected, hsmsss.(*transport).sendRejectTransactionNotOpen, hsmsss.(*transport).handleControlReq, hsmsss.(*transport).handleSeparateReq, hsmsss.(*transport).handleSelectReq, hsmsss.(*transport).handleLinktestReq, hsmsss.(*transport).handleDeselectReq, hsms.(TransportRuntime).SendAsync, hsms.(TransportRuntime).TCPDown, hsms.(TransportRuntime).DeliverOwnedFrame, hsms.(TransportRuntime).State, hsms.(TransportRuntime).SelectLost, hsms.(TransportRuntime).CommitSelected, hsms.(TransportRuntime).RouteReply, go, fn:linktestCancel, hsms.(TransportRuntime).LinktestInterval, hsmsss.readN, fn:allocFrame, net.(Conn).Read, net.(Conn).SetReadDeadline, fn:now, hsmsss.(*transport).dispatchFrame, hsmsss.(*transport).readFrame, hsmsss.(*ConnectionMetrics).incReadErrCount, context.(Context).Err, hsmsss.(*transport).armT7
+//@ requires t != nil
+//@ ensures [straggler] zzCalls("hsmsss.(*ConnectionMetrics).incReadErrCount") >= 1 &&
+//@                     zzSeq("hsms.(TransportRuntime).TCPDown") > zzSeq("hsmsss.(*ConnectionMetrics).incReadErrCount") ==>
+//@                     zzSeq("context.(Context).Err") > zzSeq("hsmsss.(*ConnectionMetrics).incReadErrCount") &&
+//@                     zzRet[error]("context.(Context).Err") == nil && zzRecv[zzCtx]("context.(Context).Err") == old(t.genCtx)
+//@ ensures [readerr]   zzCalls("hsmsss.(*ConnectionMetrics).incReadErrCount") <= 1
